@@ -1,19 +1,25 @@
-"""group DepPdu: nfc/dep.py PDU classes (ATR/PSL/DEP/DSL/RLS encode, decode, properties) and the integer
-arithmetic of Initiator.activate / Target.activate -> Model/NfcDep.lean, Model/PeerDep.lean, Model/Activate.lean
-(C04, C07, C19).
+"""group DepPdu: nfc/dep.py PDU classes (ATR/PSL/DEP/DSL/RLS encode, decode, properties), the integer arithmetic of
+Initiator.activate / Target.activate and the pure pieces of the exchange loops -> Model/NfcDep.lean, Model/PeerDep.lean,
+Model/Activate.lean, Model/FnDepPduRef.lean (C04, C07, C19).
 
 Cuts (every one is repeated in the `note` of the spec and so in the doc comment of the generated definition):
-* objects are records of their constructor arguments, `__init__` is not translated (`PSL_REQ.__init__` maps a falsy
-  `did` to 0, `DEP_REQ_RES.__init__` maps `data=None` to an empty bytearray);
-* methods of the base classes that read `cls.PDU_CODE` / `cls.PDU_NAME` get them as parameters (the four/two
-  subclasses differ only in these constants; the constants themselves are re-read by the ATR/PSL encoders, whose
-  classes name them directly, and by `translate_tables.py`);
-* `PSL_REQ_RES.decode` (`cls(*data[2:])`, argument-count TypeError) is not translated: the D-tie of C04/C07 stays
-  its only tie;
-* `activate()`: only the integer statements; `rwt = 4096/13.56E6 * 2**wt` is float arithmetic - the exponent
-  (`wt if wt < 15 else 14`, `rwt` clamp) is translated, the float product is not;
-* `atr_res.lr` / `atr_req.lr` / `atr_req.did` inside `activate()` are parameters of the miu slices (the property
-  `lr` is translated separately as `dep_atr_lr`, the bridge theorems compose them).
+* objects are records (tuples) of their constructor arguments, `__init__` is not translated (`PSL_REQ.__init__` maps a
+  falsy `did` to 0, `DEP_REQ_RES.__init__` maps `data=None` to an empty bytearray); a `decode` that does not recognise
+  the code octets returns None (`Option`);
+* methods of the base classes DSL_REQ_RES / DEP_REQ_RES are translated once per subclass (`via=`): `cls.PDU_CODE`,
+  `cls.PDU_NAME`, `self.PDU_CODE` are read from that subclass;
+* `PSL_REQ_RES.decode` (`cls(*data[2:])`, argument-count TypeError) is not translated: the D-tie of C04/C07 stays its
+  only tie; `decode_frame`'s `eval(name).decode(frame)` dispatch is hand-written in `Lemmas/FnBridgeDepPdu.lean: genTail`;
+* `activate()`: only the integer statements; `rwt = 4096/13.56E6 * 2**wt` is float arithmetic - the exponents
+  (`wt if wt < 15 else 14`, the `rwt` clamp) are translated, the float product is not; `options.get`, `os.urandom` are
+  function parameters; `atr_res.lr` / `atr_req.lr` / `atr_req.did` are parameters of the miu slices (the property `lr` is
+  translated separately as `dep_atr_lr`, the bridge theorems compose them); the target search (`clf.sense`) and
+  `self.target.brty = ('212F', '424F')[self.brs-1]` (tuple of strings) are not translated;
+* `exchange()` / `send_dep_*`: the statements between the blocking calls - chunking, the PDU type checks, packet number
+  check/increment (as statement cuts, so that their ORDER is tied), the RTOX values, the DEP_REQ branch of the Target's
+  dispatch chain with PDU objects as opaque tokens; the local PDU builders (INF, ACK, NAK, ATN, RTOX) are function
+  parameters of call-site cuts (their argument order is tied, their bodies - keyword arguments - are not translated);
+  the retry loops around `clf.exchange`, deadlines and `for/else` RTOX loops are not translated.
 """
 from translate_fn import Spec, INT, BOOL, BYTES, STR, OPT, REC, TUP
 
@@ -168,6 +174,11 @@ for _cls in ("DEP_REQ", "DEP_RES"):
              note="as inherited by %s; the result is the tuple of constructor arguments ((fmt, nad, did, pni), did, nad, "
                   "data), None when the code octets do not match; the caller's bytearray (mutated by `del`/`pop`) is "
                   "not modelled" % _cls),
+        Spec(GROUP, "dep_%s_encode" % _cls.lower(), F, "DEP_REQ_RES.encode", [], via=_cls,
+             binds=[("self.pfb", "pfb", REC("PFB")), ("self.did", "did", INT), ("self.nad", "nad", INT),
+                    ("self.data", "data", BYTES)], records={"PFB": _PFB},
+             note="as inherited by %s; `self.pfb` is the tuple (fmt, nad, did, pni); `self.did` / `self.nad` are only "
+                  "read when the flag is set (ints here)" % _cls),
     ]
 _FMT_I = [("res.pfb.fmt", "fmt", INT)]
 SPECS += [
@@ -225,16 +236,17 @@ BRIDGE = {
         "atr_decode_short_model_differs", "atr_req_roundtrip", "psl_req_encode_bridge", "psl_req_encode_activate", "psl_res_encode_bridge",
         "psl_req_dsi_bridge", "psl_req_dri_bridge", "psl_req_dsi_brty", "psl_req_dsi_dri_selected", "psl_req_lr_bridge",
         "dsl_encode_bridge", "dsl_encode_overflow", "dsl_decode_bridge", "dsl_decode_other", "gen_dsl_decode_safe",
-        "dep_decode_bridge", "dep_decode_other", "gen_dep_decode_safe", "tail_eq_genTail", "ini_opts_bridge",
-        "ini_ppi_bridge", "ini_psl_req_bridge", "ini_psl_req_activate", "ini_wt_bridge", "ini_wt_activate",
-        "ini_miu_bridge", "ini_miu_activate", "ini_miu_c04", "tgt_opts_bridge", "tgt_pp_bridge",
-        "tgt_miu_bridge", "tgt_miu_c04", "tgt_miu_activate", "tgt_cmd_bridge", "ini_chunk_bridge",
-        "gen_ini_chunk_sound", "tgt_chunk_bridge", "tgt_chunk_rest_bridge", "ini_pni_send_bridge", "ini_pni_recv_bridge",
-        "tgt_pni_bridge", "call_sites_bridge", "ini_rtox_bridge", "gen_ini_rtox_safe", "tgt_rtox_bridge",
-        "gb_cut_bridge", "ini_nfcid3_212_bridge", "ini_ack_chk_bridge", "ini_inf_chk_bridge", "ini_nak_chk_bridge",
-        "ini_atn_chk_bridge", "fmt_tests_bridge", "ini_retrans_chk_bridge", "tgt_ack_chk_bridge", "tgt_send_step_bridge",
-        "ini_send_step_bridge", "ini_recv_step_bridge", "tRxActive_dep_eq", "tgt_dep_dispatch_bridge", "gen_tgt_duplicate_resent",
-        "tgt_nfcid3_bridge", "tgt_sensf_bridge", "nfcid3_212_roundtrip")],
+        "dep_decode_bridge", "dep_decode_other", "gen_dep_decode_safe", "dep_req_encode_bridge", "dep_res_encode_bridge",
+        "dep_req_roundtrip", "tail_eq_genTail", "ini_opts_bridge", "ini_ppi_bridge", "ini_psl_req_bridge",
+        "ini_psl_req_activate", "ini_wt_bridge", "ini_wt_activate", "ini_miu_bridge", "ini_miu_activate",
+        "ini_miu_c04", "tgt_opts_bridge", "tgt_pp_bridge", "tgt_miu_bridge", "tgt_miu_c04",
+        "tgt_miu_activate", "tgt_cmd_bridge", "ini_chunk_bridge", "gen_ini_chunk_sound", "tgt_chunk_bridge",
+        "tgt_chunk_rest_bridge", "ini_pni_send_bridge", "ini_pni_recv_bridge", "tgt_pni_bridge", "call_sites_bridge",
+        "ini_rtox_bridge", "gen_ini_rtox_safe", "tgt_rtox_bridge", "gb_cut_bridge", "ini_nfcid3_212_bridge",
+        "ini_ack_chk_bridge", "ini_inf_chk_bridge", "ini_nak_chk_bridge", "ini_atn_chk_bridge", "fmt_tests_bridge",
+        "ini_retrans_chk_bridge", "tgt_ack_chk_bridge", "tgt_send_step_bridge", "ini_send_step_bridge", "ini_recv_step_bridge",
+        "tRxActive_dep_eq", "tgt_dep_dispatch_bridge", "gen_tgt_duplicate_resent", "tgt_nfcid3_bridge", "tgt_sensf_bridge",
+        "nfcid3_212_roundtrip")],
     "properties": ["C04", "C07", "C19"],
 }
 
